@@ -7,6 +7,7 @@ import (
 	"sort"
 	"time"
 
+	"github.com/mycoria/mycoria/frame"
 	"github.com/mycoria/mycoria/m"
 	"github.com/mycoria/mycoria/peering"
 )
@@ -364,6 +365,70 @@ func runC16(c *Ctx) error {
 			}
 		}
 		c.Count("sparse-listing-history")
+	}
+
+	// ---------- (a3) a link closed while a received frame waits for the frame handler ----------
+	// The frame handler channel has no buffer (as in the running system).  The peer sends a frame that
+	// nobody picks up, so the link's reader is parked at the hand-over; then the link is closed
+	// locally.  At quiescence the closing link is not registered any more and its peer route is gone.
+	for rep, n := 0, c.Pick(2, 6); rep < n; rep++ {
+		w := newRWorld()
+		w.unbufferedHandler = true
+		A, err := w.addNode("A", relayStore, nil)
+		if err != nil {
+			return err
+		}
+		w.unbufferedHandler = false
+		B, err := w.addNode("B", relayStore, nil)
+		if err != nil {
+			return err
+		}
+		p, err := linkNodes(w, A, B, nil, nil)
+		if err != nil {
+			if p != nil {
+				p.close()
+			}
+			return fmt.Errorf("link setup: %w", err)
+		}
+		f, err := B.builder.NewFrameV1(B.id.IP, A.id.IP, frame.NetworkTraffic, nil, []byte("a frame nobody picks up"), nil)
+		if err != nil {
+			return err
+		}
+		if err := p.lb.Send(f); err != nil {
+			f.ReturnToPool()
+		}
+		time.Sleep(time.Duration(c.Pick(150, 300)) * time.Millisecond) // the reader has the frame and waits for the handler
+		p.la.Close(nil)
+		deadline := time.Now().Add(2 * time.Second)
+		registered := true
+		for time.Now().Before(deadline) {
+			if A.pe.GetLink(B.id.IP) == nil && len(A.pe.GetLinks()) == 0 {
+				registered = false
+				break
+			}
+			time.Sleep(10 * time.Millisecond)
+		}
+		peerRoute := false
+		for _, e := range A.ro.Table().VerifEntries() {
+			if e.NextHop == B.id.IP {
+				peerRoute = true
+			}
+		}
+		// let the parked reader go
+		select {
+		case fr := <-A.peerIn:
+			fr.ReturnToPool()
+		case <-time.After(50 * time.Millisecond):
+		}
+		p.close()
+		c.Eval()
+		c.Count("event:local-close-with-frame-waiting")
+		c.NonTrivial("close-with-frame-waiting")
+		if registered || peerRoute {
+			c.Violate(fmt.Sprintf("a link closed locally while a received frame waited for the frame handler is still registered two seconds later (found by peer: %v, routes through the peer: %v)", registered, peerRoute), "closing-link-found",
+				map[string]any{"registered": registered, "peer_route": peerRoute})
+			break
+		}
 	}
 
 	// ---------- (b) real links ----------
